@@ -144,7 +144,7 @@ def vEnumCls (cls : String) (names : List String) (v : PyVal) : R PyVal :=
   match v with
   | .str n => if names.contains n then .ok (.enumv cls n) else .error .valueErr
   | .enumv c n => if c == cls && names.contains n then .ok v else .error .valueErr
-  | w => if unhashable w then .error .typeErr else .error .valueErr
+  | _ => .error .valueErr
 
 /-- `Array` / `Deque`: type → uniqueItems → size → (positional length rule `pre`) → items `g`
     → uniqueItems again on the normalised elements -/
